@@ -69,6 +69,9 @@ __thread uint32_t remote_msg_received[2];
 void gvt_global_init(void)
 {
 	gvt_timer = timer_new();
+	// on the master this counts the nodes still busy with the current reduction; on the other nodes it stays 1 until
+	// the master announces (see gvt_msg_drain()) that it will start no further reduction
+	atomic_store_explicit(&gvt_nodes, nid != 0, memory_order_relaxed);
 }
 
 /**
@@ -304,6 +307,9 @@ void gvt_msg_drain(void)
 
 	if(sync_thread_barrier()) {
 		atomic_store_explicit(&gvt_drain_cnt, 0U, memory_order_relaxed);
+		if(!nid) // every reduction is complete and none will be started: release the other nodes
+			for(nid_t i = 1; i < n_nodes; ++i)
+				mpi_control_msg_send_to(MSG_CTRL_GVT_DONE, i);
 		mpi_node_barrier();
 	}
 	sync_thread_barrier();
